@@ -228,6 +228,7 @@ def ref_solve_t(
     lags: int = 0,
     leads: int = 0,
     require_feasible_period: bool = False,
+    targets: Optional[List[str]] = None,
 ) -> Outcome:
     """Specification of one period solve (C02, C06, C04c).
 
@@ -239,6 +240,7 @@ def ref_solve_t(
     o.pre_calls, o.post_calls, o.n_eval = [], [], 0
     o.status, o.iters = status0, iters0
     N = script.N
+    targets = list(check) if targets is None else list(targets)   # the variables the scripted passes write (default: the check variables)
 
     def fail_exc(name: str, cause: Optional[str] = None) -> Outcome:
         o.kind, o.exc, o.cause = 'exc', name, cause
@@ -276,7 +278,7 @@ def ref_solve_t(
     if N >= 1 and script.ypre is not None:
         # the pre-solution hook may write a check variable; pass 1 is still measured from the values the period held
         # on entry (`base` above), which is how "moved since the previous pass" reads for k = 1
-        cells[check[0]][tc] = script.ypre
+        cells[targets[0]][tc] = script.ypre
 
     def finish_fail(k: int) -> Outcome:
         o.status, o.iters = 'F', k
@@ -304,7 +306,7 @@ def ref_solve_t(
                         faulted = 'UserWarning' if _tb(kind == WARN_USER) else 'DeprecationWarning' if _tb(kind == WARN_DEPR) else 'RuntimeWarning'
                         break
             if i < N:
-                cells[check[i]][tc] = script.v[k][i]
+                cells[targets[i]][tc] = script.v[k][i]
         if faulted is None and script.with_z:
             cells['Z'][tc] = script.z[k]
         if faulted is not None:
